@@ -32,7 +32,7 @@ m = {"version": 1, "setup_cmd": "bin/setup",
                   "serves_properties": [c["property_id"] for c in checks],
                   "kind_free_text": "explicit TLA+ specifications (spec/*.tla); TLC model-checks the bounded abstract and implementation-shaped models and validates ndjson traces recorded from the real containers by the Go harness (harness/) against the trace specifications"}],
      "checks": checks,
-     "notes": "verdicts come only from TLC rejecting events recorded from the real code; repaired defects are listed in known_findings.json (status fixed) and suppress nothing",
+     "notes": "verdicts come only from TLC rejecting events recorded from the real code; known_findings.json lists repaired defects (status fixed: they suppress nothing) and one known finding that is not repaired (F9, C11: value containers of uint8 serialise as a base64 string; the check prints KNOWN-FINDING and still reports any other rejection); TLC also generates behaviours of the implementation-shaped models with its simulator, which are replayed on the real code (DESIGN.md 12.5)",
      "not_applicable": na}
 json.dump(m, open(os.path.join(ROOT, "MANIFEST.json"), "w"), indent=1)
 print(len(checks), "checks,", len(na), "not applicable")
